@@ -27,6 +27,9 @@ pub struct Case {
   pub wire: bool,
   pub sel_exact: SelSpec,
   pub sel_super: SelSpec,
+  /// the generator object is first built for another measurement and its public field `x` is then reassigned
+  #[serde(default)]
+  pub reassign_x: bool,
 }
 
 fn strat(tier: Tier) -> BoxedStrategy<Case> {
@@ -35,9 +38,9 @@ fn strat(tier: Tier) -> BoxedStrategy<Case> {
     (bytes(max), epoch(), threshold(tier, 1), any::<u16>()),
     vec(prop_oneof![2 => Just(None), 1 => Just(Some(Hx(vec![]))), 4 => bytes(600).prop_map(Some)], 1..6),
     (prop_oneof![3 => Just(0u8), 2 => Just(1u8), 1 => Just(2u8)], uniform_bytes(32, 32), any::<u8>(), any::<bool>()),
-    (sel_spec(), sel_spec()),
+    (sel_spec(), sel_spec(), prop::bool::weighted(0.25)),
   )
-    .prop_map(|((m, epoch, t, extra), aux, (source, rnd, md, wire), (sel_exact, sel_super))| Case {
+    .prop_map(|((m, epoch, t, extra), aux, (source, rnd, md, wire), (sel_exact, sel_super, reassign_x))| Case {
       m,
       epoch,
       t,
@@ -49,6 +52,7 @@ fn strat(tier: Tier) -> BoxedStrategy<Case> {
       wire,
       sel_exact,
       sel_super,
+      reassign_x,
     })
     .boxed()
 }
@@ -56,7 +60,18 @@ fn strat(tier: Tier) -> BoxedStrategy<Case> {
 fn oracle(c: &Case, st: &mut Stats) -> Result<(), String> {
   let t = c.t.max(1);
   let n = t as usize + idx(c.extra, t as usize + 1);
-  let g = starx::mg(&c.m, t, &c.epoch);
+  let g = if c.reassign_x {
+    // a client object that is reused: built for another measurement, then pointed at this one
+    let mut other = c.m.0.clone();
+    other.extend_from_slice(b"-previous");
+    let mut g = starx::mg(&other, t, &c.epoch);
+    let _ = starx::report(&g, &starx::local_rnd(&g), None)?;
+    g.x = sta_rs::SingleMeasurement::new(&c.m);
+    st.class("generator-reused-with-x-reassigned");
+    g
+  } else {
+    starx::mg(&c.m, t, &c.epoch)
+  };
   let rnd: [u8; 32] = match c.source {
     0 => starx::local_rnd(&g),
     1 => {
